@@ -25,11 +25,33 @@ pub fn story_to_json_value(
     let context = EmitContext::new(story, count_all_visits);
     let root_scope = EmitScope::root(story.flows());
 
-    let mut root_container =
-        emit_nodes_with_continuation(story.root(), &root_scope, &context, Some("0.g-0"))?;
-    // Only add the default done/g-0 container if choices haven't already created a g-0 continuation.
-    if !root_container.named.contains_key("g-0") {
-        root_container.push(json!(["done", {"#n": "g-0"}]));
+    // The main flow ends in an implicit final gather holding `done`, which collects the loose
+    // ends of the top-level weave. It is `g-0` unless the weave has gathers of its own, whose
+    // names (numbered after their choices) it must not take.
+    let root_has_gather = story
+        .root()
+        .iter()
+        .any(|node| matches!(node, Node::GatherPoint | Node::GatherLabel { .. }));
+    let final_gather = if root_has_gather {
+        let choices = story
+            .root()
+            .iter()
+            .filter(|node| matches!(node, Node::Choice(_)))
+            .count();
+        format!("g-{choices}")
+    } else {
+        "g-0".to_owned()
+    };
+    let final_gather_path = format!("0.{final_gather}");
+    let mut root_container = emit_nodes_with_continuation(
+        story.root(),
+        &root_scope,
+        &context,
+        Some(&final_gather_path),
+    )?;
+    // Only add the final gather if choices haven't already created it as their continuation.
+    if !root_container.named.contains_key(&final_gather) {
+        root_container.push(json!(["done", {"#n": final_gather}]));
     }
 
     let mut named_content = Map::new();
